@@ -38,8 +38,11 @@ PROOF_FILES = ["Proofs/ItxnWalk.v", "Proofs/ItxnCorrect.v", "Proofs/ItxnClient.v
 CUR_APP = 77                      # the application executing the outer program
 OUTER_SENDER = bytes(range(1, 33))
 APP_ADDR = bytes([0xA0 + (i % 16) for i in range(32)])   # sender of the inner transactions (the app's account)
+CREATOR_ADDR = bytes([0xC0 + (i % 16) for i in range(32)])
+SPECIAL_ACCOUNTS = {"g:app": None, "g:creator": None, "g:zero": None, "t:sender": None}   # filled below
 FINDING = "no-tuple-packing"
 
+SPECIAL_ACCOUNTS.update({"g:app": APP_ADDR, "g:creator": CREATOR_ADDR, "g:zero": bytes(32), "t:sender": OUTER_SENDER})
 ENUM_VALUES = {"unknown": 0, "pay": 1, "keyreg": 2, "acfg": 3, "axfer": 4, "afrz": 5, "appl": 6,
                "NoOp": 0, "OptIn": 1, "CloseOut": 2, "ClearState": 3, "UpdateApplication": 4, "DeleteApplication": 5}
 ERR_CLASS = {"TealInputError": ("TealInputError",), "TealTypeError": ("TealTypeError",), "TypeError": ("TypeError",),
@@ -138,7 +141,7 @@ TXN_FIELDS_BY_KIND = {
     "afrz": ["FreezeAsset", "FreezeAssetAccount", "FreezeAssetFrozen", "Note"],
     "appl": ["ApplicationID", "OnCompletion", "ApplicationArgs", "Accounts", "Assets", "Applications", "Note", "Fee"],
 }
-EXTRA_FIELDS = ["Fee", "Note", "OnCompletion", "Accounts", "Assets", "Applications", "RekeyTo", "Lease", "GlobalNumUint"]
+EXTRA_FIELDS = ["Fee", "Note", "OnCompletion", "Accounts", "Assets", "Applications", "RekeyTo", "Lease", "GlobalNumUint", "Sender"]
 
 
 # ---------------------------------------------------------------------------------------------
@@ -241,7 +244,7 @@ def gen_fval(rng, name):
             if name == "OnCompletion" and rng.random() < 0.7:
                 return ("enum", "NoOp")
             return gen_x(rng, "uint", rng.choice([0, 1, 7, 1000, rng.randrange(1 << 32)]))
-        if name in ("Accounts", "Receiver", "CloseRemainderTo", "AssetReceiver", "AssetCloseTo", "FreezeAssetAccount",
+        if name in ("Accounts", "Sender", "Receiver", "CloseRemainderTo", "AssetReceiver", "AssetCloseTo", "FreezeAssetAccount",
                     "ConfigAssetManager", "RekeyTo", "Lease", "VotePK", "SelectionPK"):
             return gen_x(rng, "bytes", rand_addr(rng))
         return gen_x(rng, "bytes", bytes(rng.randrange(256) for _ in range(rng.choice([0, 1, 4, 9]))))
@@ -270,6 +273,9 @@ def gen_arg(rng, t):
         v = rand_addr(rng) if k == "account" else rng.choice([1, 5, 1000, rng.randrange(1, 1 << 40)])
         if rng.random() < 0.3:
             return ("refinst", k, v)
+        if k == "account" and rng.random() < 0.3:
+            src = rng.choice(sorted(SPECIAL_ACCOUNTS))
+            return ("expr", ("x", "bytes", SPECIAL_ACCOUNTS[src], src))
         return ("expr", gen_x(rng, "bytes" if k == "account" else "uint", v))
     v = A.gen_value(layout(t), rng, text=True, maxlen=3)
     if rng.random() < 0.3:
@@ -492,6 +498,31 @@ def directed_txn_matrix(rng):
     return out
 
 
+def directed_sender_cases(rng):
+    """account arguments that are the app's own address / Txn.sender() / the creator / the zero address (as Global / Txn
+    expressions and as constants), with and without extra_fields overriding Sender (a call on behalf of a rekeyed account),
+    RekeyTo, extra Accounts: index 0 means the ACTUAL sender of the inner call"""
+    other = bytes([0x5E]) * 32
+    specials = [("x", "bytes", SPECIAL_ACCOUNTS[k], k) for k in sorted(SPECIAL_ACCOUNTS)] + \
+               [("x", "bytes", APP_ADDR, "const"), ("x", "bytes", other, "const"), ("x", "bytes", APP_ADDR, "scratch")]
+    extras = [[], [("Sender", ("x", "bytes", other, "const"))], [("Sender", ("x", "bytes", other, "arg")), ("Fee", ("x", "uint", 0, "const"))],
+              [("RekeyTo", ("x", "bytes", other, "const")), ("Sender", ("x", "bytes", OUTER_SENDER, "const"))],
+              [("Accounts", ("list", [("x", "bytes", other, "const")])), ("Sender", ("x", "bytes", other, "const"))],
+              [("Sender", ("x", "bytes", APP_ADDR, "g:app"))]]
+    out = []
+    n = 0
+    for a in specials:
+        for ex in extras:
+            n += 1
+            second = specials[(n + 3) % len(specials)]
+            c = {"name": "withdraw", "params": [("ref", "account"), ("uint", 64), ("ref", "account")], "ret": None if n % 2 else ("uint", 64),
+                 "app_id": ("x", "uint", 77, "const"),
+                 "args": [("expr", a), ("expr", ("x", "bytes", itob(5), "const"), 5), ("expr", second)], "extra": list(ex),
+                 "api": ["ExecuteMethodCall", "MethodCall", "prefixed"][n % 3], "expect": "ok"}
+            out.append(c)
+    return out
+
+
 def gen_negative(rng, idx):
     """a call with exactly one defect (or a tricky accepted variant); `neg` names it"""
     for _ in range(200):
@@ -691,6 +722,14 @@ class Real:
         _, tt, v, src = x
         if tt == "none":
             return pt.Pop(pt.Int(1))
+        if src == "g:app":
+            return pt.Global.current_application_address()
+        if src == "g:creator":
+            return pt.Global.creator_address()
+        if src == "g:zero":
+            return pt.Global.zero_address()
+        if src == "t:sender":
+            return pt.Txn.sender()
         if src == "const":
             return self.const(v)
         if src == "arg":
@@ -815,7 +854,7 @@ def outer_ctx(rb, teal):
           (S("arrays"), ("ApplicationArgs", tuple(arrs["application_args"])), ("Accounts", tuple(arrs["accounts"])),
            ("Assets", tuple(arrs["assets"])), ("Applications", tuple(arrs["applications"]))))
     return (S("ctx"), (S("mode"), S("app")), (S("gi"), 0), (S("app-id"), CUR_APP), (S("group"), me),
-            (S("globals"), ("GroupSize", 1), ("CurrentApplicationID", CUR_APP), ("CurrentApplicationAddress", APP_ADDR), ("ZeroAddress", bytes(32))),
+            (S("globals"), ("GroupSize", 1), ("CurrentApplicationID", CUR_APP), ("CurrentApplicationAddress", APP_ADDR), ("CreatorAddress", CREATOR_ADDR), ("ZeroAddress", bytes(32))),
             (S("msel"),) + msel, (S("fuel"), 200000))
 
 
@@ -997,7 +1036,9 @@ def oracle(case, rb, group):
     if any(not isinstance(b, bytes) for b in app_args):
         bad.append("an application argument is not a byte string")
         return bad
-    bad += CL.check_call(e, app_args, arr(call, "Accounts"), arr(call, "Assets"), arr(call, "Applications"), pre, APP_ADDR, callee)
+    # index 0 of Accounts means the inner transaction's ACTUAL sender: the Sender field if the call sets one, else the app's account
+    actual_sender = scalar(call, "Sender") if scalar(call, "Sender") is not None else APP_ADDR
+    bad += CL.check_call(e, app_args, arr(call, "Accounts"), arr(call, "Assets"), arr(call, "Applications"), pre, actual_sender, callee)
     return bad
 
 
@@ -1066,9 +1107,10 @@ def callee_ctx(case, group, teal, callee_id):
         txs.append(((S("fields"),) + tuple(d.items()), (S("arrays"),)))
     gi = len(txs)
     aa, ac, asx, ap = arr(call, "ApplicationArgs"), arr(call, "Accounts"), arr(call, "Assets"), arr(call, "Applications")
+    snd = scalar(call, "Sender") if isinstance(scalar(call, "Sender"), bytes) else APP_ADDR
     me = ((S("fields"), ("TypeEnum", 6), ("OnCompletion", 0), ("ApplicationID", callee_id), ("NumAppArgs", len(aa)), ("GroupIndex", gi),
-           ("Sender", APP_ADDR), ("Fee", 0), ("NumAccounts", len(ac)), ("NumAssets", len(asx)), ("NumApplications", len(ap))),
-          (S("arrays"), ("ApplicationArgs", tuple(aa)), ("Accounts", tuple([APP_ADDR] + ac)), ("Assets", tuple(asx)),
+           ("Sender", snd), ("Fee", 0), ("NumAccounts", len(ac)), ("NumAssets", len(asx)), ("NumApplications", len(ap))),
+          (S("arrays"), ("ApplicationArgs", tuple(aa)), ("Accounts", tuple([snd] + ac)), ("Assets", tuple(asx)),
            ("Applications", tuple([callee_id] + ap))))
     msel = tuple((s, CL.selector(s)) for s in sorted(set(re.findall(r'^method "(.*)"$', teal, re.M))))
     return (S("ctx"), (S("mode"), S("app")), (S("gi"), gi), (S("app-id"), callee_id), (S("group"),) + tuple(txs) + (me,),
@@ -1409,6 +1451,7 @@ def main(argv):
     cases += [("small", c) for c in small_cases(ck.rng)]
     cases += [("directed", c) for c in directed_negatives(ck.rng)]
     cases += [("directed", c) for c in directed_txn_matrix(ck.rng)]
+    cases += [("directed", c) for c in directed_sender_cases(ck.rng)]
     nrand = 6000 if thorough else 600
     profiles = ["any", "cutoff", "small", "txnheavy", "refheavy", "any", "small"]
     for i in range(nrand):
